@@ -91,10 +91,20 @@ type runner struct {
 	res  []sessResult
 }
 
+// startupPairs: what session i announces (different users; every other session also an
+// application name and further run-time parameters, as psql / JDBC do)
+func startupPairs(i int) [][2]string {
+	p := [][2]string{{"user", fmt.Sprintf("user%d", i)}, {"database", "db"}}
+	if i%2 == 0 {
+		p = append(p, [2]string{"application_name", fmt.Sprintf("app-%d", i)}, [2]string{"client_encoding", "UTF8"}, [2]string{"options", fmt.Sprintf("-c search_path=s%d", i)})
+	}
+	return p
+}
+
 func (r *runner) start(i int) bool {
 	s := r.env.NewSess()
 	r.sess[i] = s
-	st := s.Startup([][2]string{{"user", fmt.Sprintf("user%d", i)}, {"database", "db"}}, nil)
+	st := s.Startup(startupPairs(i), nil)
 	if st.State == memnet.Timeout {
 		r.res[i].inc = "startup guard"
 		return false
@@ -247,7 +257,7 @@ func Run(c Case) core.Result {
 		sr.msgs = [][]script.CMsg{c.Sessions[i]}
 		s := sr.env.NewSess()
 		sr.sess[0] = s
-		st := s.Startup([][2]string{{"user", fmt.Sprintf("user%d", i)}, {"database", "db"}}, nil)
+		st := s.Startup(startupPairs(i), nil)
 		ok := st.State == memnet.Idle && st.Err == nil
 		sr.res[0].canon = append(sr.res[0].canon, pgwire.Canon(st.Msgs)...)
 		for ok && sr.step(0) {
